@@ -43,7 +43,7 @@ def sim_stream(proj, chk, extra=None, nq=8000, nt=150000):
 # ----------------------------------------------------------------------------- exhaustive scopes
 # Prop-level readings of a property's checker kept outside props/<pid>.v (theorems named <pid>_...)
 READINGS = {"C01": ["Exact3"], "C12": ["Exact5*"], "C04": ["Exact"], "C05": ["Exact"], "C02": ["Readings", "Exact3"], "C03": ["Readings", "Exact4"], "C06": ["Readings4", "Exact2"], "C07": ["Readings2", "Exact2"],
-            "C08": ["Readings2"], "C09": ["Readings5", "Exact", "FlowThm*", "FlowThm2*"], "C10": ["Readings2"], "C11": ["FlowThm*", "FlowThm2*"]}
+            "C08": ["Readings2"], "C09": ["Readings5", "Exact", "FlowThm*", "FlowThm2*"], "C10": ["Readings2", "Exact5", "Exact6*"], "C11": ["Exact5", "FlowThm*", "FlowThm2*"]}
 
 
 def icase_scope(tier):
